@@ -192,6 +192,30 @@ class SymProvider:
     def is_true(self, cond):
         return bool(cond)
 
+    @staticmethod
+    def _b(x):
+        if isinstance(x, SymBool):
+            return x.b
+        if isinstance(x, z3.BoolRef):
+            return x
+        return z3.BoolVal(bool(x))
+
+    def is_integer(self, x, tol=None):
+        x = Sym.lift(x)
+        return SymBool(z3.IsInt(x.z()))
+
+    def both(self, a, b):
+        return SymBool(z3.And(self._b(a), self._b(b)))
+
+    def either(self, a, b):
+        return SymBool(z3.Or(self._b(a), self._b(b)))
+
+    def implies(self, a, b):
+        return SymBool(z3.Implies(self._b(a), self._b(b)))
+
+    def const(self, x):
+        return Sym.const(x)
+
 
 def model_to_inputs(model, inputs):
     """solver model -> concrete inputs (unit quaternions renormalised); returns a list of candidate input dicts"""
